@@ -758,6 +758,17 @@ func (f *Frame) guardCheck(ins *ssa.FieldAddr, lv *LValue, st *State) {
 		}
 		ord := f.guardOrd(ins, g)
 		u.addObl(st, "lock:held", fmt.Sprintf("%s.%s#%d", g.Type, g.Field, ord), Select(h, lockAddr), nil)
+		// a write to guarded state must happen in the first critical section of this call: a decision taken in an
+		// earlier critical section (e.g. through a callee that locks and unlocks) is stale by the time of the write
+		if guardedWrite(ins) {
+			acq, oka := st.ghost["$acq"]
+			acq0 := u.ghostInit("$acq", ArraySort(SInt, SInt))
+			if !oka {
+				acq = acq0
+			}
+			goal := Eq(Select(acq, lockAddr), App("+", SInt, Select(acq0, lockAddr), IntLit(1)))
+			u.addObl(st, "lock:one-critical-section", fmt.Sprintf("%s.%s#%d", g.Type, g.Field, ord), goal, nil).Text = "guarded state is written in the first critical section of the call (check and update are atomic)"
+		}
 		// escape: the guarded value must not be returned or stored into a longer-lived object
 		if refs := ins.Referrers(); refs != nil {
 			for _, r := range *refs {
@@ -895,4 +906,50 @@ func (f *Frame) namedArgs(c *ssa.CallCommon, st *State) map[string]TV {
 		}
 	}
 	return out
+}
+
+// guardedWrite reports whether the guarded field access is (part of) a write: an assignment to the field, or an
+// update/delete of the map or slice the field holds.
+func guardedWrite(fa *ssa.FieldAddr) bool {
+	refs := fa.Referrers()
+	if refs == nil {
+		return false
+	}
+	for _, r := range *refs {
+		switch r := r.(type) {
+		case *ssa.Store:
+			if r.Addr == fa {
+				return true
+			}
+		case *ssa.UnOp:
+			if r.Op != token.MUL {
+				continue
+			}
+			if lr := r.Referrers(); lr != nil {
+				for _, x := range *lr {
+					switch x := x.(type) {
+					case *ssa.MapUpdate:
+						if x.Map == r {
+							return true
+						}
+					case *ssa.Call:
+						if b, ok := x.Call.Value.(*ssa.Builtin); ok && b.Name() == "delete" && len(x.Call.Args) > 0 && x.Call.Args[0] == r {
+							return true
+						}
+					case *ssa.IndexAddr:
+						if x.X == r {
+							if xr := x.Referrers(); xr != nil {
+								for _, y := range *xr {
+									if s, ok := y.(*ssa.Store); ok && s.Addr == x {
+										return true
+									}
+								}
+							}
+						}
+					}
+				}
+			}
+		}
+	}
+	return false
 }
